@@ -134,12 +134,22 @@ def sf_be_split(E, st, args, kw):
     concatenation term for the solver to match)"""
     sv, i, j = args
     sink = []
-    a = ops.slice_bytes(E, sv, slice(None, i), st, sink)
-    b = ops.slice_bytes(E, sv, slice(i, j), st, sink)
-    c = ops.slice_bytes(E, sv, slice(None, j), st, sink)
     zi, zj = zint(i), zint(j)
-    eq = models.be_value(E, st, zbytes(c)) == _be_term(E, st, zbytes(a)) * _p256(E, st, zj - zi) + _be_term(E, st, zbytes(b))
-    t = z3.Implies(z3.And(zi >= 0, zi <= zj, zj <= z3.Length(zbytes(sv))), eq)
+    guard = z3.And(zi >= 0, zi <= zj, zj <= z3.Length(zbytes(sv)))
+    # the terms of the conclusion are built in a state that KNOWS the hypothesis (slice bounds in range): they then take the same
+    # shape as the terms the code under proof builds where the bounds are known (ops.seq_nth); the facts produced on the way are
+    # unconditional truths and are carried over
+    st2 = st.fork()
+    st2.assume(guard)
+    n0 = len(st2.pc)
+    a = ops.slice_bytes(E, sv, slice(None, i), st2, sink)
+    b = ops.slice_bytes(E, sv, slice(i, j), st2, sink)
+    c = ops.slice_bytes(E, sv, slice(None, j), st2, sink)
+    eq = models.be_value(E, st2, zbytes(c)) == _be_term(E, st2, zbytes(a)) * _p256(E, st2, zj - zi) + _be_term(E, st2, zbytes(b))
+    for f in st2.pc[n0:]:
+        if f.get_id() in st2.facts:
+            st.fact(f)
+    t = z3.Implies(guard, eq)
     st.fact(t)
     return val(st, mk_bool(t))
 
@@ -176,7 +186,7 @@ def _be_term(E, st, zs):
     if z3.is_int_value(ln) and ln.as_long() <= 16:
         t = z3.IntVal(0)
         for i in range(ln.as_long()):
-            t = t * 256 + ops.byte_int(E, st, zs[i])
+            t = t * 256 + ops.byte_int(E, st, ops.seq_nth(E, st, zs, i))
         return t
     return models.be_value(E, st, zs)
 
